@@ -32,4 +32,7 @@ def run(ctx):
                 "their own vector; the index-based and the pointer-based manager's copies are the same program.")
     nv = evlm.run(ctx, F)
     ctx.floor("E-VLM", "interpreted VarLevelMap situations", nv, 38)
+    ctx.explain("E-VNM.dup: set_var_name rejects a present name exactly when it belongs to a different variable (the error is "
+                "built on the `owner != var` edge only).")
+    evnm2.check_duplicate_test(ctx, F)
     ctx.not_decided = "the bijection over call sequences as behaviour; that adding variables preserves functions"
